@@ -87,15 +87,19 @@ def run(ctx):
             tot = sum(float(p) for _, p in spec['grammar'])
             spec['grammar'] = [[s, repr(float(p) / tot)] for s, p in spec['grammar']]
         d = common.write_ruleset(os.path.join(root, f"h{i % 10}"), spec)
+        # every third ruleset is loaded the way `--all_lower` loads it: the honeyword distribution is then that of the ruleset with
+        # every capitalisation list replaced by the single all-lower mask
+        flags = {'skip_case': i % 3 == 2}
+        dist['all_lower'] = dist.get('all_lower', 0) + int(flags['skip_case'])
         try:
-            pcfg = common.load_grammar(d)
+            pcfg = common.load_grammar(d, **flags)
         except Exception as e:
             continue
         # the probabilities are those of the ruleset: what was loaded must be what the files say
         import corr_pq
-        for v_ in corr_pq.oracle_base_vs_files(pcfg, spec, 'C16') + corr_pq.oracle_loaded_vs_files(pcfg, spec, {}):
+        for v_ in corr_pq.oracle_base_vs_files(pcfg, spec, 'C16') + corr_pq.oracle_loaded_vs_files(pcfg, spec, flags):
             v_['property'] = 'C16'
-            v_['witness'] = {'spec': spec}
+            v_['witness'] = {'spec': spec, 'flags': flags}
             viol.append(v_)
         pre = corr_expand.grammar_ops(pcfg, om) + sampler_ops(pcfg)
         ops += pre
@@ -233,8 +237,10 @@ def replay(ctx, payload):
         return []
     common.use_impl()
     d = common.write_ruleset(os.path.join(common.scratch_dir('rules'), 'replay16'), w['spec'])
-    pcfg = common.load_grammar(d)
+    pcfg = common.load_grammar(d, **(w.get('flags') or {}))
     out = []
+    import corr_pq
+    out += [dict(v_, property='C16') for v_ in corr_pq.oracle_base_vs_files(pcfg, w['spec'], 'C16') + corr_pq.oracle_loaded_vs_files(pcfg, w['spec'], w.get('flags') or {})]
     if 'us' in w:
         sc = Script([common.h2f(u) for u in w['us']] + [0.5] * 20, list(w['ks']) + [0] * 20)
         try:
